@@ -137,11 +137,11 @@ func c11(args []string) error {
 				if err := target.AddChild(child, from); err != nil {
 					ev["err"] = err.Error()
 				}
-			case "dedupe":
+			case "dedupe", "dedupe-any":
 				if err := seed.DedupeItems(); err != nil {
 					ev["err"] = err.Error()
 				}
-			case "cac":
+			case "cac", "cac-any":
 				ev["r"] = seed.CompleteAndCheck()
 			default:
 				return fmt.Errorf("unknown op %q", op.Op)
@@ -155,6 +155,123 @@ func c11(args []string) error {
 	if err := sc.Err(); err != nil {
 		return err
 	}
+	// ---- stage-shaped walks driven by the REAL tree (no model in the loop): each pass does what the stages do -
+	// reject some fresh nodes, de-duplicate, mark some as seen, fetch (archived / failed), post-process (redirect
+	// target, assets, or completed), then CompleteAndCheck - choosing by what the real tree looks like now.  Every
+	// primitive is recorded; a change that only shows after an earlier divergence from the model is still judged here.
+	wr := vh.Rand(1111)
+	pool := []string{"a", "b", "c", "d", "e", "f"}
+	for walk := 0; walk < 400; walk++ {
+		hn++
+		k := 0
+		idc++
+		seed := models.NewItem(fmt.Sprintf("id-%d", idc), c11url(pool[wr.Intn(len(pool))]), "")
+		emit := func(op string, before vh.Projection, extra map[string]any) {
+			k++
+			after := vh.Project(seed, vh.UrlName)
+			ev := map[string]any{"ev": "op", "h": hn, "k": k, "op": op, "before": before.Nodes, "after": after.Nodes, "ids": after.IDs, "links": after.Links, "cc": after.CC, "walk": true}
+			for a, b := range extra {
+				ev[a] = b
+			}
+			tr.Emit(ev)
+		}
+		index := func(p vh.Projection, it *models.Item) int {
+			for i, x := range p.Items {
+				if x == it {
+					return i + 1
+				}
+			}
+			return 0
+		}
+		emit("new", vh.Projection{Nodes: []vh.Node{}}, map[string]any{"u": vh.UrlName(seed.GetURL())})
+		set := func(it *models.Item, st string) {
+			b := vh.Project(seed, vh.UrlName)
+			v, _ := vh.Status(st)
+			it.SetStatus(v)
+			emit("set", b, map[string]any{"i": index(b, it), "st": st})
+		}
+		for pass := 0; pass < 7; pass++ {
+			level, _ := seed.GetNodesAtLevel(seed.GetMaxDepth())
+			// preprocess: filters
+			for _, it := range level {
+				if it.GetStatus() == models.ItemFresh && it.GetParent() != nil && wr.Intn(5) == 0 {
+					b := vh.Project(seed, vh.UrlName)
+					i := index(b, it)
+					it.GetParent().RemoveChild(it)
+					emit("remove", b, map[string]any{"i": i})
+				}
+			}
+			b := vh.Project(seed, vh.UrlName)
+			seed.DedupeItems()
+			emit("dedupe", b, nil)
+			level, _ = seed.GetNodesAtLevel(seed.GetMaxDepth())
+			fresh := 0
+			for _, it := range level {
+				if it.GetStatus() != models.ItemFresh {
+					continue
+				}
+				if it.GetParent() != nil && wr.Intn(5) == 0 {
+					set(it, "Seen")
+					continue
+				}
+				fresh++
+			}
+			if fresh == 0 {
+				if seed.GetStatus() != models.ItemCompleted {
+					set(seed, "Completed") // preprocess: no more work to do
+				}
+			} else {
+				for _, it := range level {
+					if it.GetStatus() == models.ItemFresh {
+						set(it, "PreProcessed")
+					}
+				}
+				for _, it := range level { // archiver
+					if it.GetStatus() == models.ItemPreProcessed {
+						if wr.Intn(5) == 0 {
+							set(it, "Failed")
+						} else {
+							set(it, "Archived")
+						}
+					}
+				}
+				for _, it := range level { // postprocessor
+					if it.GetStatus() != models.ItemArchived {
+						continue
+					}
+					add := func(from string) {
+						b := vh.Project(seed, vh.UrlName)
+						idc++
+						u := pool[wr.Intn(len(pool))]
+						child := models.NewItem(fmt.Sprintf("id-%d", idc), c11url(u), "")
+						fs, _ := vh.Status(from)
+						ex := map[string]any{"i": index(b, it), "u": u, "from": from}
+						if err := it.AddChild(child, fs); err != nil {
+							ex["err"] = err.Error()
+						}
+						emit("add", b, ex)
+					}
+					switch c := wr.Intn(4); {
+					case c == 0 && it.GetURL().GetRedirects() < 3:
+						add("GotRedirected")
+					case c <= 2 && it.GetDepth() < 3:
+						for j := 0; j < 1+wr.Intn(3); j++ {
+							add("GotChildren")
+						}
+					default:
+						set(it, "Completed")
+					}
+				}
+			}
+			b = vh.Project(seed, vh.UrlName)
+			r := seed.CompleteAndCheck()
+			emit("cac", b, map[string]any{"r": r})
+			if r {
+				break
+			}
+		}
+	}
+
 	// ---- concurrent use of one node: the mutators lock the children list, so removals, additions and
 	// readers running at once must leave exactly the children that were not removed plus the added ones
 	r := vh.Rand(1100)
